@@ -1,6 +1,7 @@
-package common
+package main
 
 import (
+	"bytes"
 	"context"
 	"fmt"
 	"os"
@@ -12,40 +13,27 @@ import (
 	"strings"
 	"sync"
 	"time"
+
+	"verif/harness/common"
 )
 
-// GoResult is what the compiled program did.
-type GoResult struct {
-	CompileErr string // non-empty: the toolchain rejected the program (first lines of the error)
-	Stdout     string
-	Stderr     string
-	Exit       int
-	Timeout    bool
-}
+var mainReC06 = regexp.MustCompile(`(?m)^func main\(\)`)
+var pkgReC06 = regexp.MustCompile(`(?m)^package main\b`)
+var pkgDirReC06 = regexp.MustCompile(`\bp(\d{5})/`)
 
-// Panic returns the message of the "panic: …" line of stderr, or "" if the program did not panic.
-func (g GoResult) Panic() string {
-	for _, l := range strings.Split(g.Stderr, "\n") {
-		if strings.HasPrefix(l, "panic: ") {
-			return strings.TrimPrefix(l, "panic: ")
-		}
-		if strings.HasPrefix(l, "fatal error: ") {
-			return l
-		}
-	}
-	return ""
-}
-
-var mainRe = regexp.MustCompile(`(?m)^func main\(\)`)
-var pkgRe = regexp.MustCompile(`(?m)^package main\b`)
-var pkgDirRe = regexp.MustCompile(`\bp(\d{5})/`)
-
-// RunGoBatch compiles every program (each a complete `package main` with `func main()`) with the
+// runGoBatchNoInline is common.RunGoBatch with one difference: the programs are compiled with the
+// inliner switched off (-gcflags=batch/...=-l). Reason (measured with go1.23.5): when a deferred named
+// function or method is inlined into its defer wrapper, a recover() in a function literal that the
+// deferred function merely CALLS becomes effective, which contradicts the language specification
+// ("recover was not called directly by a deferred function" => nil). Without the inliner the toolchain
+// follows the specification.
+//
+// It compiles every program (each a complete `package main` with `func main()`) with the
 // installed toolchain — all linked into one dispatcher binary per batch, so a few hundred
 // programs cost one `go build` — and runs each in its own process. Scratch files live in a fresh
 // temporary directory that is removed before returning.
-func RunGoBatch(progs []string, perRun time.Duration) ([]GoResult, error) {
-	res := make([]GoResult, len(progs))
+func runGoBatchNoInline(progs []string, perRun time.Duration) ([]common.GoResult, error) {
+	res := make([]common.GoResult, len(progs))
 	if len(progs) == 0 {
 		return res, nil
 	}
@@ -59,12 +47,12 @@ func RunGoBatch(progs []string, perRun time.Duration) ([]GoResult, error) {
 	}
 	alive := map[int]bool{}
 	for i, src := range progs {
-		if !mainRe.MatchString(src) || !pkgRe.MatchString(src) {
+		if !mainReC06.MatchString(src) || !pkgReC06.MatchString(src) {
 			res[i].CompileErr = "harness: program lacks `package main` / `func main()`"
 			continue
 		}
-		s := pkgRe.ReplaceAllString(src, fmt.Sprintf("package p%05d", i))
-		s = mainRe.ReplaceAllString(s, "func Main()")
+		s := pkgReC06.ReplaceAllString(src, fmt.Sprintf("package p%05d", i))
+		s = mainReC06.ReplaceAllString(s, "func Main()")
 		d := filepath.Join(dir, fmt.Sprintf("p%05d", i))
 		if err := os.MkdirAll(d, 0o755); err != nil {
 			return nil, err
@@ -94,7 +82,7 @@ func RunGoBatch(progs []string, perRun time.Duration) ([]GoResult, error) {
 		if err := os.WriteFile(filepath.Join(dir, "main.go"), []byte(b.String()), 0o644); err != nil {
 			return nil, err
 		}
-		cmd := exec.Command("go", "build", "-o", bin, ".")
+		cmd := exec.Command("go", "build", "-gcflags=batch/...=-l", "-o", bin, ".")
 		cmd.Dir = dir
 		cmd.Env = env
 		out, err := cmd.CombinedOutput()
@@ -104,7 +92,7 @@ func RunGoBatch(progs []string, perRun time.Duration) ([]GoResult, error) {
 		// attribute the errors to packages, drop those, retry
 		bad := map[int][]string{}
 		for _, l := range strings.Split(string(out), "\n") {
-			if m := pkgDirRe.FindStringSubmatch(l); m != nil {
+			if m := pkgDirReC06.FindStringSubmatch(l); m != nil {
 				n, _ := strconv.Atoi(m[1])
 				bad[n] = append(bad[n], l)
 			}
@@ -135,8 +123,8 @@ func RunGoBatch(progs []string, perRun time.Duration) ([]GoResult, error) {
 			defer cancel()
 			cmd := exec.CommandContext(ctx, bin, strconv.Itoa(i))
 			cmd.Env = append(os.Environ(), "GOTRACEBACK=single", "GOMEMLIMIT=512MiB")
-			so, se := &capWriter{max: 1 << 20}, &capWriter{max: 1 << 20}
-			cmd.Stdout, cmd.Stderr = so, se
+			var so, se bytes.Buffer
+			cmd.Stdout, cmd.Stderr = &so, &se
 			err := cmd.Run()
 			r := &res[i]
 			r.Stdout, r.Stderr = so.String(), se.String()
